@@ -54,7 +54,9 @@ func buildEverything(seed uint64, prop string, o everythingOpts) (*kernel.Trace,
 	distCfg.BaseAddrs = append(distCfg.BaseAddrs, kernel.ActorBech("sink-0"), kernel.ActorBech("sink-1"))
 	if o.NatFaults {
 		if r.P(0.6) {
-			distCfg.BlockedBaseAddrs = []string{kernel.ModuleAddr("transfer").String(), kernel.ModuleAddr("interchainaccounts").String()}
+			distCfg.BlockedBaseAddrs = []string{kernel.ModuleAddr("transfer").String(), kernel.ModuleAddr("interchainaccounts").String(),
+				// module accounts that exist in the account store from genesis on
+				kernel.ModuleAddr("bonded_tokens_pool").String(), kernel.ModuleAddr("distribution").String()}
 		}
 		for _, va := range spec.VestingAccounts {
 			if r.P(0.6) {
